@@ -31,6 +31,8 @@ impl<'a> TcpListenerAccept<'a> {
 
             // clear the io_flag
             self.io_data.io_flag.store(0, Ordering::Relaxed);
+            #[cfg(may_verif)]
+            crate::verif::syscall();
 
             match self.socket.accept() {
                 Ok((s, a)) => {
